@@ -29,8 +29,8 @@ var (
 		CoreSize:   8192,
 		Processes:  8000,
 		Cycles:     100000,
-		ReadLimit:  8000,
-		WriteLimit: 8000,
+		ReadLimit:  8192,
+		WriteLimit: 8192,
 		Length:     300,
 		Distance:   100,
 	}
